@@ -285,7 +285,7 @@ class Session:
             return second
         if op == "unmarshal":
             try:
-                x = self.V(step["x"])
+                x = self.inputs[step["x_from"]] if step.get("x_from") in self.inputs else self.V(step["x"])
             except (ValueError, StopIteration, RuntimeError) as e:
                 rejected = (isinstance(e, ValueError) and str(e) == "rejected") or isinstance(e, StopIteration) or \
                     (isinstance(e, RuntimeError) and isinstance(e.__cause__, StopIteration))
@@ -438,6 +438,14 @@ class Session:
                 self.outcomes.clear()
                 gc.collect()
             fired = True
+        elif op == "rewrite_slot":
+            # the producer writes the next message into the slot the consumer's (read-only) view shows
+            view = self.inputs.get(step["ref"])
+            data = bytes.fromhex(step["hex"])
+            if isinstance(view, memoryview) and len(data) == len(view) and hasattr(view.obj, "seek"):
+                view.obj.seek(0)
+                view.obj.write(data)
+                fired = True
         elif op == "shrink":
             ok = seams.shrink_lru(step["name"], int(step["cap"]))
             if ok:
@@ -468,7 +476,7 @@ class Session:
             self.stats["faults_not_fired"] += 1
         return fired
 
-    FAULT_OPS = ("clear", "clear_typing", "shrink", "mutate_result", "mutate_input", "clock", "zone", "reclimit")
+    FAULT_OPS = ("clear", "clear_typing", "shrink", "mutate_result", "mutate_input", "clock", "zone", "reclimit", "rewrite_slot")
 
     # ------------------------------------------------------------------ step log
     def state_signature(self) -> str:
